@@ -259,4 +259,123 @@ theorem C10N_forall_step (stream : Env → List Ev) (pre : List Ev) (envq : Env)
       (pre ++ (recheck stream envq (sol :: sols)).1 ++ (forAllLoopN stream qs (recheck stream envq (sol :: sols)).2).1,
        (forAllLoopN stream qs (recheck stream envq (sol :: sols)).2).2) := rfl
 
+/-! ## 6. a bound variable is never pulled; pulls stay inside the domains -/
+
+/-- **C10N_never_pulls_bound.** Evaluating ANY expression (quantifiers anywhere) from bindings that contain `u` never
+pulls an element of `u`'s domain, provided the consumer does not. In particular the body of a quantifier never pulls
+the quantified variable once it is bound, a `for_all` whose universal variable is bound by what is to its left checks
+that one value without touching the domain, and no variable bound by an enclosing operator is ever re-enumerated. -/
+theorem C10N_never_pulls_bound (w : World) (u : VarId) (e : Expr) (env : Env) (k : Env → Bool → List Ev)
+    (hb : Bnd u env) (hk : ∀ e b, Bnd u e → NoPull u (k e b)) : NoPull u (traceN w e env k) :=
+  traceN_noPull w u e env k hb hk
+
+/-- the body of a quantifier, evaluated under a value of the quantified variable, pulls nothing of its domain -/
+theorem C10N_body_never_pulls_quantified (w : World) (u : VarId) (c : Expr) (env : Env) (x : Val) :
+    NoPull u (streamN w c ((.var u, x) :: env)) :=
+  traceN_noPull w u c _ cell (Bnd.cons_var u x (Or.inr rfl)) fun _ _ _ i h => by simp [cell] at h
+
+/-- **C10N_forall_early_exit_pulled.** Under the hypotheses of `C10N_forall_early_exit` and a consumer-independent
+reading: exactly ONE element of the universal domain has been consumed. -/
+theorem C10N_forall_early_exit_pulled (w : World) (u : VarId) (c : Expr) (env : Env) (k : Env → Bool → List Ev)
+    (v1 : Val) (rest : List Val) (hl : env.lookup (.var u) = none) (hd : w.dom u = v1 :: rest)
+    (h : (cellsOf (streamN w c ((.var u, v1) :: env))).filter (·.2) = []) :
+    pulled u (traceN w (.forAll u c) env k) = 1 ∧ rowsOf (traceN w (.forAll u c) env k) = [] := by
+  rw [C10N_forall_early_exit w u c env k v1 rest hl hd h]
+  have hnp : NoPull u (nonRow (streamN w c ((.var u, v1) :: env))) := by
+    intro i hi
+    exact C10N_body_never_pulls_quantified w u c env v1 i (List.mem_filter.1 hi).1
+  constructor
+  · rw [pulled_eq_foldl, List.foldl_cons, foldl_pullStep_noPull u _ _ hnp]
+    simp [pullStep]
+  · rw [rowsOf_cons_pull]
+    exact rowsOf_eq_nil_of_noRow _ fun e he => by simpa using (List.mem_filter.1 he).2
+
+theorem C10N_pull_in_range (w : World) (q : Query) (v : VarId) (i : Nat) (h : Ev.pull v i ∈ traceQueryN w q) :
+    i < (w.dom v).length :=
+  traceQueryN_pullOk w q _ h
+
+/-- **C10N_pulled_le_domain.** After any number of results no more elements have been consumed than at the end, and
+never more than the domain has. -/
+theorem C10N_pulled_le_domain (w : World) (q : Query) (v : VarId) (k : Nat) :
+    pulled v (uptoRow k (traceQueryN w q)) ≤ pulled v (traceQueryN w q) ∧
+    pulled v (traceQueryN w q) ≤ (w.dom v).length :=
+  ⟨pulled_mono_prefix v (uptoRow_prefix k _), pulled_le_of_forall v _ _ fun _ hi => C10N_pull_in_range w q v _ hi⟩
+
+/-! ## 7. non-vacuity (tests) on `exWorld` of C10 (three objects, `a = 1, 2, 1`; variables 0 and 1 range over all) -/
+
+section Tests
+
+/-- `an(entity(x, x.a == 1, exists(y, y.a == x.a)))`: the quantifier is the RIGHT operand of `and` -/
+def exnAndExists : Expr :=
+  .and (.cmp .eq (.attr (.var 0) "a") (.lit 10 (.int 1)))
+       (.exists_ 1 (.cmp .eq (.attr (.var 1) "a") (.attr (.var 0) "a")))
+
+/-- TEST (`exists` below `and` streams): the hypothesis of `C10N_rows` holds with two rows; the FIRST row is handed out
+after one element of `x`'s and one of `y`'s 3-element domain has been pulled; exhausting pulls all. -/
+example :
+    exnAndExists.hasQ = true ∧
+    (evalQuery exWorld ⟨[.var 0], some exnAndExists⟩).toOption = some [[.obj 0], [.obj 0], [.obj 2], [.obj 2]] ∧
+    rowsOf (traceQueryN exWorld ⟨[.var 0], some exnAndExists⟩) = [[.obj 0], [.obj 0], [.obj 2], [.obj 2]] ∧
+    hasErr (traceQueryN exWorld ⟨[.var 0], some exnAndExists⟩) = false ∧
+    uptoRow 1 (traceQueryN exWorld ⟨[.var 0], some exnAndExists⟩) =
+      [.pull 0 0, .read 0 "a", .read 0 "a", .pull 1 0, .read 0 "a", .row [.obj 0]] ∧
+    pulled 0 (uptoRow 1 (traceQueryN exWorld ⟨[.var 0], some exnAndExists⟩)) = 1 ∧
+    pulled 1 (uptoRow 1 (traceQueryN exWorld ⟨[.var 0], some exnAndExists⟩)) = 1 ∧
+    pulled 0 (traceQueryN exWorld ⟨[.var 0], some exnAndExists⟩) = 3 ∧
+    pulled 1 (traceQueryN exWorld ⟨[.var 0], some exnAndExists⟩) = 3 := by decide
+
+/-- `an(entity(x, x.a == 1, for_all(y, x.a <= y.a)))` -/
+def exnAndForAll : Expr :=
+  .and (.cmp .eq (.attr (.var 0) "a") (.lit 10 (.int 1)))
+       (.forAll 1 (.cmp .le (.attr (.var 0) "a") (.attr (.var 1) "a")))
+
+/-- TEST (`for_all` below `and`: blocking in its own variable, the enclosing `and` still streams): the first row needs
+ONE element of `x`'s domain and ALL of `y`'s. -/
+example :
+    (evalQuery exWorld ⟨[.var 0], some exnAndForAll⟩).toOption = some [[.obj 0], [.obj 2]] ∧
+    rowsOf (traceQueryN exWorld ⟨[.var 0], some exnAndForAll⟩) = [[.obj 0], [.obj 2]] ∧
+    pulled 0 (uptoRow 1 (traceQueryN exWorld ⟨[.var 0], some exnAndForAll⟩)) = 1 ∧
+    pulled 1 (uptoRow 1 (traceQueryN exWorld ⟨[.var 0], some exnAndForAll⟩)) = 3 ∧
+    pulled 0 (traceQueryN exWorld ⟨[.var 0], some exnAndForAll⟩) = 3 := by decide
+
+/-- TEST (`for_all` early exit in nested position; hypotheses of `C10N_forall_early_exit`): below
+`x.a == 2 and for_all(y, y.a == 2)` the condition fails under the first `y`: ONE of three is pulled. -/
+example :
+    let c : Expr := .cmp .eq (.attr (.var 1) "a") (.lit 11 (.int 2))
+    let e : Expr := .and (.cmp .eq (.attr (.var 0) "a") (.lit 10 (.int 2))) (.forAll 1 c)
+    (cellsOf (streamN exWorld c [(Key.var 1, .obj 0), (Key.var 0, .obj 1)])).filter (·.2) = [] ∧
+    pulled 1 (traceQueryN exWorld ⟨[.var 0], some e⟩) = 1 ∧
+    rowsOf (traceQueryN exWorld ⟨[.var 0], some e⟩) = [] ∧
+    (evalQuery exWorld ⟨[.var 0], some e⟩).toOption = some [] := by decide
+
+/-- TEST (a quantifier in a quantifier's body): `exists(x, x.a == 1 and for_all(y, x.a <= y.a))` selecting `x`:
+rows as the list model, first row before `x`'s domain is exhausted. -/
+example :
+    let e : Expr := .exists_ 0 exnAndForAll
+    (evalQuery exWorld ⟨[.var 0], some e⟩).toOption = some [[.obj 0], [.obj 2]] ∧
+    rowsOf (traceQueryN exWorld ⟨[.var 0], some e⟩) = [[.obj 0], [.obj 2]] ∧
+    pulled 0 (uptoRow 1 (traceQueryN exWorld ⟨[.var 0], some e⟩)) = 1 ∧
+    pulled 0 (traceQueryN exWorld ⟨[.var 0], some e⟩) = 3 ∧
+    nonRow (streamN exWorld e []) = nonRow (streamN exWorld exnAndForAll []) := by decide
+
+/-- TEST (`KeyError`, why the row theorems are conditional on the list model returning — and the trace agrees with it
+here): below `exists(y, x.a == 2 and y.a == 1)` the first result of the body is false and does not bind `y`; the real
+`Exists` looks `y` up in it and raises, so do the list model and `traceN` (the root-level `traceExistsRoot` of
+`Model/EqlTraceQ.lean` does not: it only looks at true results). -/
+example :
+    let c : Expr := .and (.cmp .eq (.attr (.var 0) "a") (.lit 10 (.int 2)))
+                         (.cmp .eq (.attr (.var 1) "a") (.lit 11 (.int 1)))
+    errOf (evalQuery exWorld ⟨[.var 1], some (.exists_ 1 c)⟩) = some .keyError ∧
+    hasErr (traceQueryN exWorld ⟨[.var 1], some (.exists_ 1 c)⟩) = true ∧
+    hasErr (traceExistsRoot exWorld [.var 1] 1 c) = false := by decide
+
+/-- TEST (`C10N_streaming` is not vacuous: the splice really interleaves): the query trace of the first example is its
+condition's stream with one selection row per true result -/
+example :
+    (cellsOf (streamN exWorld exnAndExists [])).length = 5 ∧
+    (nonRow (traceQueryN exWorld ⟨[.var 0], some exnAndExists⟩)).length = 20 ∧
+    nonRow (traceQueryN exWorld ⟨[.var 0], some exnAndExists⟩) = nonRow (streamN exWorld exnAndExists []) := by decide
+
+end Tests
+
 end KrroodVerif.Eql
